@@ -784,6 +784,21 @@ def install_trapmod() -> None:
     spoof.__module__ = "taskiq.serialization"  # a planted function claiming to be one of the library's own
     m.spoof = spoof  # type: ignore[attr-defined]
     m.value = 42  # type: ignore[attr-defined]
+
+    class _AttrDict(dict):  # type: ignore[type-arg]
+        """A settings object: attribute access is item access (unknown names raise KeyError, not AttributeError)."""
+
+        __getattr__ = dict.__getitem__
+
+    m.settings = _AttrDict(fn=_trap_fn, Err=_ExcOk)  # type: ignore[attr-defined]
+    # a recording function / non-exception class decorated with functools.wraps(<an exception class>): __wrapped__ points
+    # at an exception class, the object itself is not one
+    m.wrapped_fn = __import__("functools").wraps(_ExcOk, updated=())(lambda *a, **k: _trap_fn(*a, **k))  # type: ignore[attr-defined]
+
+    class _WrappedCls(_TrapCls):
+        __wrapped__ = ValueError
+
+    m.WrappedCls = _WrappedCls  # type: ignore[attr-defined]
     m.none = None  # type: ignore[attr-defined]
     m.lam = lambda *a: TRAP_LOG.append("lam")  # type: ignore[attr-defined]  # noqa: E731
     m.partial = __import__("functools").partial(_trap_fn)  # type: ignore[attr-defined]
@@ -864,6 +879,12 @@ CATALOGUE: List[Tuple[Optional[str], str]] = [
     # the claimed module is loaded, the dotted *type name* starts with a sub-package that is not
     ("taskiq", "api.run_receiver_task"), ("taskiq", "cli.worker.run.start_listen"), ("taskiq", "schedule_sources.LabelScheduleSource"),
     ("taskiq", "api"), ("taskiq", "cli.common_args.LogLevel"), ("json", "tool.main"), ("email", "mime.text.MIMEText"),
+    # lookups that fail with KeyError; objects whose __wrapped__ is an exception class; names with white space around
+    # them (nothing of that name exists: a synthetic class of exactly that name)
+    ("trapmod", "settings.Missing"), ("trapmod", "settings.fn"), ("trapmod", "settings.Err"), ("trapmod", "settings.Missing.More"),
+    ("trapmod", "wrapped_fn"), ("trapmod", "WrappedCls"),
+    ("builtins", "ValueError "), (" builtins", "KeyError"), ("os", "\tsystem"), ("builtins", " ValueError"), ("trapmod ", "fn"),
+    ("trapmod", "fn\n"), ("builtins", "Value Error"),
 ]
 
 class _Validating(Exception):
@@ -913,8 +934,8 @@ def resolve(module: Optional[str], name: str) -> Tuple[bool, Any]:
                     return False, None
             else:
                 obj = getattr(obj, part)
-    except AttributeError:
-        return False, None
+    except (AttributeError, KeyError):
+        return False, None  # (an object whose attribute access raises KeyError for unknown names: not there either)
     return True, obj
 
 
